@@ -83,6 +83,16 @@ static bool Guarded(F fn) {
 // ---- Variant ------------------------------------------------------------------------
 using Var = nop::Variant<ElemA, int, ElemB>;   // a trivially destructible alternative sits between the tracked ones
 
+// a Variant over other types (a subset, in another order): source of the converting constructors / assignments
+using VarSub = nop::Variant<ElemB, ElemA>;
+// receives the value of any alternative (IfAnyOf<...>::Get)
+struct AnySink {
+  int type = -9, val = 0;
+  AnySink& operator=(const ElemA& a) { type = 0; val = a.v; return *this; }
+  AnySink& operator=(const int& i) { type = 1; val = i; return *this; }
+  AnySink& operator=(const ElemB& b) { type = 2; val = b.v; return *this; }
+};
+
 struct VarVisitor {
   int* calls; int* type; int* val;
   void operator()(nop::EmptyVariant) const { (*calls)++; *type = -1; *val = 0; }
@@ -109,6 +119,28 @@ static void ObserveVar(Var* slots[], JsonOut& o) {
       o.kv_bool("ga", v.get<ElemA>() != nullptr);
       o.kv_bool("gi", v.get<int>() != nullptr);
       o.kv_bool("gb", v.get<ElemB>() != nullptr);
+      // the const accessors, the index-based accessors, std::get, and IfAnyOf on the same object
+      const Var& cv = v;
+      o.kv_bool("cga", cv.get<ElemA>() != nullptr);
+      o.kv_bool("cgi", cv.get<int>() != nullptr);
+      o.kv_bool("cgb", cv.get<ElemB>() != nullptr);
+      o.kv_bool("g0", v.get<0>() != nullptr);
+      o.kv_bool("g1", cv.get<1>() != nullptr);
+      o.kv_bool("g2", v.get<2>() != nullptr);
+      int sg = 0;
+      if (v.index() == 0) sg = std::get<ElemA>(v).v + 0 * std::get<0>(cv).v;
+      else if (v.index() == 1) sg = std::get<int>(cv) + 0 * std::get<1>(v);
+      else if (v.index() == 2) sg = std::get<2>(v).v + 0 * std::get<ElemB>(cv).v;
+      o.kv_num("sg", sg);
+      AnySink sink;
+      const bool any_ai = nop::IfAnyOf<ElemA, int>::Get(&cv, &sink);
+      o.kv_bool("any_ai", any_ai);
+      o.kv_num("any_t", any_ai ? sink.type : -9);
+      o.kv_num("any_v", any_ai ? sink.val : 0);
+      int ncall = 0;
+      const bool any_b = nop::IfAnyOf<ElemB>::Call(&v, [&ncall](const ElemB&) { ncall++; });
+      o.kv_bool("any_b", any_b);
+      o.kv_num("any_bc", ncall);
       o.kv_bool("isa", v.is<ElemA>());
       o.kv_bool("isi", v.is<int>());
       o.kv_bool("isb", v.is<ElemB>());
@@ -145,6 +177,10 @@ static void RunVariant(const Json& ops, JsonOut& o) {
         else if (op == "new_b") { ElemB e(x); slots[s] = new (mem) Var(std::move(e)); }
         else if (op == "new_i") { slots[s] = new (mem) Var(x); }
         else if (op == "new_c") { ElemC c(x); slots[s] = new (mem) Var(c); }
+        // construction from a Variant over other types: copy (holding A), move (holding B), empty
+        else if (op == "new_sub_a") { VarSub src{ElemA(x)}; slots[s] = new (mem) Var(src); }
+        else if (op == "new_sub_b") { VarSub src{ElemB(x)}; slots[s] = new (mem) Var(std::move(src)); }
+        else if (op == "new_sub_empty") { VarSub src; slots[s] = new (mem) Var(src); }
         else if (op == "new_copy") { if (!slots[p]) { bad = true; return; } slots[s] = new (mem) Var(*slots[p]); }
         else if (op == "new_move") { if (!slots[p]) { bad = true; return; } slots[s] = new (mem) Var(std::move(*slots[p])); }
         else bad = true;
@@ -160,6 +196,12 @@ static void RunVariant(const Json& ops, JsonOut& o) {
       else if (op == "assign_i") { v = x; }
       else if (op == "assign_c") { ElemC c(x); v = c; }
       else if (op == "assign_ev") v = nop::EmptyVariant{};
+      else if (op == "assign_sub_a") { VarSub src{ElemA(x)}; v = src; }
+      else if (op == "assign_sub_b") { VarSub src{ElemB(x)}; v = std::move(src); }
+      else if (op == "assign_sub_empty") { VarSub src; v = src; }
+      // IfAnyOf<ElemA>::Swap / Take: act on the value only when an A is active
+      else if (op == "swap_a") { ElemA out(x); op_calls = nop::IfAnyOf<ElemA>::Swap(&v, &out) ? 1 : 0; op_val = out.v; }
+      else if (op == "take_a") { ElemA out(x); op_calls = nop::IfAnyOf<ElemA>::Take(&v, &out) ? 1 : 0; op_val = out.v; }
       else if (op == "become") v.Become(k);
       else if (op == "visit") { v.Visit(VarVisitor{&op_calls, &op_type, &op_val}); }
       else if (op == "destroy") { v.~Var(); slots[s] = nullptr; }
@@ -177,6 +219,7 @@ static void RunVariant(const Json& ops, JsonOut& o) {
     o.kv_bool("threw", threw);
     if (bad) o.kv_bool("bad", true);
     if (op == "visit" && !bad) { o.kv_num("opvc", op_calls); o.kv_num("opvt", op_type); o.kv_num("opval", op_val); }
+    if ((op == "swap_a" || op == "take_a") && !bad) { o.kv_bool("did", op_calls == 1); o.kv_num("out", op_val); }
     ObserveVar(slots, o);
     EmitLife(o);
     o.end_obj();
@@ -368,6 +411,71 @@ static void RunResult(const Json& ops, JsonOut& o) {
   o.end_obj();
 }
 
+// ---- Result<E, void> (Status<void>): nothing or an error other than None ---------------
+using ResV = nop::Status<void>;
+static void RunResultVoid(const Json& ops, JsonOut& o) {
+  alignas(ResV) unsigned char storage[kSlots][sizeof(ResV)];
+  ResV* slots[kSlots] = {nullptr, nullptr, nullptr};
+  o.key("ops");
+  o.begin_arr();
+  for (auto& opj : ops.a) {
+    const std::string& op = opj.at("op").s;
+    const int s = static_cast<int>(opj.at("o").num(0));
+    const int p = static_cast<int>(opj.at("p").num(0));
+    const int x = static_cast<int>(opj.at("val").num(0));
+    bool bad = false;
+    void* mem = storage[s];
+    if (op.compare(0, 4, "new_") == 0) {
+      if (slots[s]) bad = true;
+      else if (op == "new_empty") slots[s] = new (mem) ResV();
+      else if (op == "new_err") slots[s] = new (mem) ResV(static_cast<nop::ErrorStatus>(x));
+      else if (op == "new_copy") { if (!slots[p]) bad = true; else slots[s] = new (mem) ResV(*slots[p]); }
+      else if (op == "new_move") { if (!slots[p]) bad = true; else slots[s] = new (mem) ResV(std::move(*slots[p])); }
+      else bad = true;
+    } else if (!slots[s]) bad = true;
+    else {
+      ResV& v = *slots[s];
+      if (op == "assign_copy") { if (!slots[p]) bad = true; else v = *slots[p]; }
+      else if (op == "assign_move") { if (!slots[p]) bad = true; else v = std::move(*slots[p]); }
+      else if (op == "assign_err") v = ResV(static_cast<nop::ErrorStatus>(x));
+      else if (op == "clear") v.clear();
+      else if (op == "destroy") { v.~ResV(); slots[s] = nullptr; }
+      else bad = true;
+    }
+    o.begin_obj();
+    o.kv_str("op", op);
+    o.kv_num("o", s);
+    if (opj.has("p")) o.kv_num("p", p);
+    if (opj.has("val")) o.kv_num("val", x);
+    o.kv_bool("throw", false);
+    o.kv_bool("threw", false);
+    if (bad) o.kv_bool("bad", true);
+    o.key("obs");
+    o.begin_arr();
+    for (int i = 0; i < kSlots; i++) {
+      o.begin_obj();
+      o.kv_bool("ex", slots[i] != nullptr);
+      if (slots[i]) {
+        const ResV& r = *slots[i];
+        o.kv_bool("hv", false);
+        o.kv_bool("he", r.has_error());
+        o.kv_bool("bool", static_cast<bool>(r));
+        o.kv_num("err", static_cast<int>(r.error()));
+      }
+      o.end_obj();
+    }
+    o.end_arr();
+    EmitLife(o);
+    o.end_obj();
+  }
+  o.end_arr();
+  for (int s = 0; s < kSlots; s++) if (slots[s]) slots[s]->~ResV();
+  o.key("end");
+  o.begin_obj();
+  EmitLife(o);
+  o.end_obj();
+}
+
 // ---- UniqueHandle -------------------------------------------------------------------
 static const int kResources = 8;
 static int g_closed[kResources];
@@ -525,6 +633,7 @@ static void CmdObj(const Json& cmd, JsonOut& o) {
   else if (m == "optional_int") OptMachine<nop::Optional<int>, int>::Run(cmd.at("ops"), o);
   else if (m == "entry") OptMachine<nop::Entry<ElemA, 5>, ElemA>::Run(cmd.at("ops"), o);
   else if (m == "result") RunResult(cmd.at("ops"), o);
+  else if (m == "result_void") RunResultVoid(cmd.at("ops"), o);
   else if (m == "uhandle") RunHandle(cmd.at("ops"), o);
   else if (m == "ufile") RunFileHandle(cmd.at("ops"), o);
   else o.kv_bool("badmachine", true);
